@@ -59,3 +59,60 @@ def check_path_types(rep, model, rule):
                 bad = [f'{k.arg}={u(k.value)}' for k in c.keywords if k.arg in REWRITING_KW and _truthy_const(k.value)]
                 rep.add(rule, (mod.relpath, c.lineno, mod.name), 'a path option hands over the path as typed (no resolve_path at the option)', not bad, expected='no resolve_path', found=bad or u(c)[:80], stmt=c)
     rep.floor(rule, 'click.Path constructions / factory uses', n, 6)
+
+
+def check_query_cli_params(rep, model, rule):
+    """`gambit query`: the classification mode the user chose on the command line is the one every row is classified with.  The
+    --strict flag (off by default) becomes QueryParams.classify_strict, that parameter object is what query() / query_parse() are
+    given, and query_parse() forwards it unchanged.  (query() -> get_result_item -> classify(strict=params.classify_strict) is rule
+    D6 of C03.)"""
+    from .astutil import reaching_def, def_value, PARAM, stmt_of
+    from .report import Undecided
+    m = model
+    fc = m.func('gambit.cli.query.query_cmd')
+    rep.functions.add(fc.qualname)
+    # the option
+    opts = [d for d in fc.node.decorator_list if isinstance(d, ast.Call) and u(d.func) == 'click.option' and any(isinstance(a, ast.Constant) and isinstance(a.value, str) and a.value.split('/')[0] == '--strict' for a in d.args)]
+    rep.require(len(opts) == 1, 'query_cmd: expected one --strict option')
+    o = opts[0]
+    spec = next(a.value for a in o.args if isinstance(a, ast.Constant) and isinstance(a.value, str) and a.value.startswith('--strict'))
+    is_flag = '/' in spec or (get_kw(o, 'is_flag') is not None and _truthy_const(get_kw(o, 'is_flag')) and isinstance(get_kw(o, 'is_flag'), ast.Constant))
+    dflt = get_kw(o, 'default')
+    rep.add(rule, fc.site(o), 'the command line classifies non-strictly unless --strict is given', is_flag and (dflt is None or (isinstance(dflt, ast.Constant) and dflt.value is False)) and 'strict' in fc.params(),
+            expected="click.option('--strict/--no-strict', default=False) bound to the parameter `strict`", found=u(o)[:90], stmt='--strict option')
+    # the parameter object
+    QP = 'gambit.query.QueryParams'
+    cons = [c for c in calls_in(fc.node) if m.resolve_call(fc, c) == QP]
+    rep.require(len(cons) >= 1, 'query_cmd: no QueryParams construction')
+    fields = [s.target.id for s in m.cls(QP).node.body if isinstance(s, ast.AnnAssign) and isinstance(s.target, ast.Name)]
+    for c in cons:
+        if any(isinstance(a, ast.Starred) for a in c.args) or any(k.arg is None for k in c.keywords):
+            raise Undecided(f'query_cmd: QueryParams built with * / ** arguments: {u(c)[:70]}')
+        v = get_kw(c, 'classify_strict')
+        if v is None and 'classify_strict' in fields and fields.index('classify_strict') < len(c.args):
+            v = c.args[fields.index('classify_strict')]
+        ok = isinstance(v, ast.Name) and v.id == 'strict' and reaching_def(fc.node, 'strict', stmt_of(fc.node, c)) is PARAM
+        rep.add(rule, fc.site(c), 'the --strict flag becomes the classification mode of the query parameters', ok, expected='QueryParams(classify_strict=strict)', found=u(c)[:80], stmt='QueryParams construction')
+    # ... is what the query functions get
+    n = 0
+    for c in calls_in(fc.node):
+        q = m.resolve_call(fc, c)
+        if q not in ('gambit.query.query', 'gambit.query.query_parse'):
+            continue
+        n += 1
+        a = m.effective_arg(fc, c, 'params')
+        src = a
+        if isinstance(a, ast.Name):
+            d = reaching_def(fc.node, a.id, stmt_of(fc.node, c))
+            src = def_value(d) if d not in (None, PARAM) and not isinstance(d, str) else None
+        ok = isinstance(src, ast.Call) and any(src is k for k in cons)
+        rep.add(rule, fc.site(c), 'the query runs with the parameters built from the command line', ok, expected='params=<that QueryParams object>', found=(u(c)[:70], u(a) if isinstance(a, ast.AST) else repr(a)), stmt=f'{q.rsplit(".", 1)[1]} params')
+    rep.require(n >= 1, 'query_cmd: no call of query() / query_parse()')
+    fp = m.func('gambit.query.query_parse')
+    rep.functions.add(fp.qualname)
+    fw = [c for c in calls_in(fp.node) if m.resolve_call(fp, c) == 'gambit.query.query']
+    rep.require(len(fw) >= 1 and 'params' in fp.params(), 'query_parse: no call of query() / no `params` parameter')
+    for c in fw:
+        a = m.effective_arg(fp, c, 'params')
+        ok = isinstance(a, ast.Name) and a.id == 'params' and reaching_def(fp.node, 'params', stmt_of(fp.node, c)) is PARAM
+        rep.add(rule, fp.site(c), 'query_parse() forwards the caller\'s parameters unchanged', ok, expected='query(db, sigs, params, ...)', found=u(c)[:80], stmt='query_parse forwards params')
